@@ -208,6 +208,20 @@ def check(run):
             nb += 1
             if nb <= 3:
                 run.fail('D3', 'serialize_dict', f'{tag}: the emitted tree is not the canonical Hashmap tree (root bits {got[0][:30]} vs {want[0][:30]})', ws, witness=dict(width=width, keys=list(keys)))
+    # maps serialised one after the other in the same process: the same label string written where the remaining key length - and with it the
+    # width of the label's length field - differs (7 -> 3 bits, 8 -> 4 bits, 15 -> 4, 16 -> 5), every map still canonical
+    it = Interp(prog)
+    for width, keys in ((7, (0b1010101,)), (8, (0b10101010, 0b10101011)), (7, (0b1010101, 0b0000000)), (15, (0x5555,)), (16, (0xAAAA, 0xAAAB)), (15, (0x5555,)),
+                        (3, (7,)), (4, (14, 15)), (3, (7, 0))):
+        tag = f'in turn: w={width},keys={list(keys)}'
+        try:
+            cell = cm.call_method(it, build_map(prog, it, width, keys), 'serialize')
+            got, want = bocrun.ckey(it, cell), bocrun.skey(spec_tree(width, keys))
+            ok, why = got == want, 'canonical' if got == want else f'not the canonical tree (root bits {got[0][:30]} vs {want[0][:30]})'
+        except RaiseEx as e:
+            ok, why = False, f'raises {e}'
+        run.check(ok, 'D3', 'serialize_dict[maps serialised earlier in the process]' if not ok else tag, f'{tag}: {why}', ws)
+        run.evaluations += 1
     # insertion-order independence
     for width, keys in ((3, (1, 4, 6, 7)), (8, (200, 3, 77, 76))):
         outs = set()
